@@ -26,6 +26,14 @@ def _seeds(seed, k):
     return {"seed": seed * 100003 + k * 7919 + 1, "hashseed": (seed * 131 + k * 17) % 4096}
 
 
+def medium_jobs(pid, tier, seed, faults=False):
+    """Shapes of 40..170 call sites (max_concurrency up to 12, levels much wider than that, functions used more than ten times),
+    free-running, judged by the same spec-based and spec-free monitors as the small ones."""
+    gen = dict(nmin=40, nmax=170, mc_max=12, max_deps=2, tag_rate=0.25, debug_rate=0.1, nest_rate=0.15, twin_rate=0.12)
+    return [dict(kind="sched", mode="stress", n_cases=(10 if tier == "quick" else 60), reps=2, gen=gen, selections=True, faults=faults, fault_rate=0.5,
+                 flavour="both", **_seeds(seed + 300, k)) for k in range(2 if tier == "quick" else 8)]
+
+
 def sched_jobs(tier, seed, gen=None, selections=False, faults=False, fault_rate=1.0, stress=True, dfs=True,
                dfs_faults=False, scale=1.0, dfs_gen=None, flavour="both"):
     gen = dict(gen or {})
@@ -87,7 +95,7 @@ RULE_SCHED = (
 @plan("C02")
 def c02(tier, seed):
     return dict(
-        jobs=w3_jobs(seed) + sched_jobs(tier, seed, gen=dict(nmax=9, mc_max=4), selections=True)
+        jobs=medium_jobs("C02", tier, seed) + w3_jobs(seed) + sched_jobs(tier, seed, gen=dict(nmax=9, mc_max=4), selections=True)
         # a dependency that RAISES has not returned either: failing nodes of every resource, nothing downstream may be entered
         + sched_jobs(tier, seed + 13, gen=dict(nmax=7, mc_max=3), faults=True, fault_rate=0.7, stress=False, dfs=False, scale=0.3)
         # executors that are run again (after a failure / a success), both flavours: no missing or stale values on the second run
@@ -113,7 +121,7 @@ def c02(tier, seed):
 @plan("C03")
 def c03(tier, seed):
     return dict(
-        jobs=w3_jobs(seed) + sched_jobs(tier, seed, gen=dict(nmax=9, mc_max=4), selections=True)
+        jobs=medium_jobs("C03", tier, seed) + w3_jobs(seed) + sched_jobs(tier, seed, gen=dict(nmax=9, mc_max=4), selections=True)
         + diff_jobs("C03", tier, seed, dict(flags=0.3, nest=0.3, nest_flag=0.3, share_fns=0.5), 2, nj_scale=0.5,
                     only=["executed_functions_differ_from_plain_python", "flagged_call_ran_although_flag_falsy",
                           "flagged_call_skipped_although_flag_truthy"] + ["call_site_entered_%d_times_expected_%d" % (a, b) for a in range(6) for b in range(2)])
@@ -155,7 +163,7 @@ def c03(tier, seed):
 @plan("C04")
 def c04(tier, seed):
     return dict(
-        jobs=w3_jobs(seed) + sched_jobs(tier, seed, gen=dict(nmin=4, nmax=14, mc_max=8, max_deps=1, seq_rate=0.05), dfs_gen=dict(nmin=3))
+        jobs=medium_jobs("C04", tier, seed) + w3_jobs(seed) + sched_jobs(tier, seed, gen=dict(nmin=4, nmax=14, mc_max=8, max_deps=1, seq_rate=0.05), dfs_gen=dict(nmin=3))
         # resources decide the thread in EVERY execution mode: executors restricted by target / exclude / root nodes, setup nodes
         # (any resource) run by setup() or by the first call
         + sched_jobs(tier, seed + 21, gen=dict(nmin=3, nmax=9, mc_max=4, max_deps=2, setup_rate=0.3), selections=True, dfs=False, stress=False, scale=0.4)
@@ -173,7 +181,7 @@ def c04(tier, seed):
 @plan("C05")
 def c05(tier, seed):
     return dict(
-        jobs=w3_jobs(seed) + sched_jobs(tier, seed, gen=dict(nmax=8, mc_max=4, seq_rate=0.4), selections=True)
+        jobs=medium_jobs("C05", tier, seed) + w3_jobs(seed) + sched_jobs(tier, seed, gen=dict(nmax=8, mc_max=4, seq_rate=0.4), selections=True)
         + diff_jobs("C05", tier, seed, dict(flags=0.2, nest=0.3, nest_flag=0.2, share_fns=0.3, seq=0.4), 2, nj_scale=0.25, only=[])
         # nodes whose function is a DAG object, made sequential by a configuration reload: they overlap nothing either
         + [dict(kind="env", pid="C05", scenarios=["reentrant"], how="dag_object_as_node_function", n_cases=(60 if tier == "quick" else 500),
@@ -193,7 +201,7 @@ def c06(tier, seed):
                   random_cases=(40 if tier == "quick" else 400), seed=seed * 97 + 50 + h, hashseed=h,
                   variants={"target": "one", "root": 1, "exclude": 1, "config": 1, "debug": 1, "compose": 1, "retry": 1}) for h in range(2 if tier == "quick" else 8)]
     return dict(
-        jobs=jobs, level="exploration", rule=RULE_SCHED + "; whole-DAG calls and executors with target/exclude/root selections",
+        jobs=medium_jobs("C06", tier, seed) + jobs, level="exploration", rule=RULE_SCHED + "; whole-DAG calls and executors with target/exclude/root selections",
         assumptions=ASSUME_COMMON + ["ready set = scheduler-knowable: a node whose parent finished but was not yet delivered by a wait is not counted"],
         required_reach=["c06_decisions_with_alternatives", "WAIT_thread"], parallel=8 if tier == "quick" else 16,
     )
